@@ -185,6 +185,12 @@ class SymScreen:
             f[S['charset']] = Enum('Charset', 0)
             f[S['g0_charset']] = tabs['B']
             f[S['g1_charset']] = tabs['0']
+        elif charset == 'symsel':
+            cs = ctx.bvvar('charset', 64)
+            ctx.assume(z3.ULE(cs, 1))
+            f[S['charset']] = Enum('Charset', cs)
+            f[S['g0_charset']] = tabs['B']
+            f[S['g1_charset']] = tabs['0']
         else:
             cs = ctx.bvvar('charset', 64)
             ctx.assume(z3.ULE(cs, 1))
@@ -226,8 +232,11 @@ class SymScreen:
             sf[P['g0_charset']] = tabs[names[ctx.concretize(_bounded(ctx, name + '_g0', 4))]]
             sf[P['g1_charset']] = tabs[names[ctx.concretize(_bounded(ctx, name + '_g1', 4))]]
         else:
-            sf[P['g0_charset']] = tabs['U']
-            sf[P['g1_charset']] = tabs['V']
+            # fixed but pairwise distinct per stack slot (and distinct from the power-on tables)
+            k = int(name[2:]) if name[2:].isdigit() else 0
+            pair = [('U', 'V'), ('V', 'U'), ('0', 'B'), ('U', '0')][k % 4]
+            sf[P['g0_charset']] = tabs[pair[0]]
+            sf[P['g1_charset']] = tabs[pair[1]]
         cs = ctx.bvvar(name + '_charset', 64)
         ctx.assume(z3.ULE(cs, 1))
         sf[P['charset']] = Enum('Charset', cs)
